@@ -185,3 +185,32 @@ Qed.
 
 Theorem diff_reason_total_proof : forall has, exists r, diff_reason has = Ok r.
 Proof. intros has. apply reason_total_proof. Qed.
+
+(* ------------------------------------------------------------------------------------------------ *)
+(** * decoding from a source that fails (Pickle/Source.v) *)
+From Dawn Require Import Pickle.Source.
+
+Theorem decode_source_total_proof : forall unp s,
+    decode_source unp s <> OutOfFuel /\ decode_source unp s <> NilNil /\
+    (lengths_bounded (src_bytes s) = true ->
+     decode_source unp s = Err \/ exists v h, decode_source unp s = Ok (v, h)).
+Proof.
+  intros unp s. unfold decode_source.
+  destruct (decode_never_hangs_or_nilnil_proof unp (src_bytes s)) as [H1 H2].
+  repeat split; auto. apply decode_total_proof.
+Qed.
+
+Theorem decode_source_end_irrelevant_proof : forall unp bs e1 e2,
+    decode_source unp (mkSource bs e1) = decode_source unp (mkSource bs e2).
+Proof. reflexivity. Qed.
+
+(** reader.Read never hands its caller a short read: it is all n bytes or the failure *)
+Theorem reader_read_all_or_failure_proof : forall n s got rest,
+    reader_read n s = Some (got, rest) ->
+    length got = n /\ src_bytes s = got ++ src_bytes rest /\ src_ends rest = src_ends s.
+Proof.
+  intros n s got rest. unfold reader_read.
+  destruct (Nat.leb n (length (src_bytes s))) eqn:E; [|discriminate].
+  intro H. inversion H; subst; clear H. apply Nat.leb_le in E. cbn [src_bytes src_ends].
+  split; [apply firstn_length_le; exact E|]. split; [symmetry; apply firstn_skipn|reflexivity].
+Qed.
